@@ -30,7 +30,9 @@ def build(par, mix, rng):
     extra = []
     if mix == "Node":
         # incl. keys named like read-only properties, and immutable containers holding mutable objects
-        nodes = [F.Node("n%d" % i, val=i, data={"k": [i, "x"]}, size=1000 + i, depth="d%d" % i, tup=([i], {"d": i}), fz=frozenset([(i, "f")])) for i in range(n)]
+        # also attributes whose values are None / empty / zero (they are attributes all the same)
+        nodes = [F.Node("n%d" % i, val=i, data={"k": [i, "x"]}, size=1000 + i, depth="d%d" % i, tup=([i], {"d": i}), fz=frozenset([(i, "f")]),
+                        nothing=None, empty=[], zero=0, blank="", nodict={}) for i in range(n)]
     elif mix == "AnyNode":
         nodes = [F.AnyNode(id=i, tag="t%d" % i) for i in range(n)]
     elif mix == "NM":
@@ -64,7 +66,7 @@ def build(par, mix, rng):
         for i in range(n):
             r = i % 6
             if r == 0 or i == 0:
-                nodes.append(F.Node("n%d" % i, val=i))
+                nodes.append(F.Node(i if i % 12 == 0 else "n%d" % i, val=i, nothing=None))  # the link target nodes[0] has a non-string name
             elif r == 1:
                 nodes.append(F.SymlinkNode(nodes[0]))  # inside the tree
             elif r == 2:
